@@ -39,7 +39,8 @@ def run(ctx):
                "power, children summed); CSE-aware counter tests membership "
                "before adding and returns 0 when seen")
     ctx.decline("equality with an independent count on concrete inputs")
-    ctx.assume("cached look-aside discipline of CachedMapper (decided by C05)")
+    ctx.decide("cached look-aside discipline of CachedMapper (C05's rule "
+               "instances), which the node counter's 'distinct' relies on")
 
     dm = model.cls(f"{DEP}:DependencyMapper")
     cdm = model.cls(f"{DEP}:CachedDependencyMapper")
@@ -49,6 +50,11 @@ def run(ctx):
     _check_cached_dep(ctx, model, dm, cdm)
     _check_node_count(ctx, model)
     _check_flops(ctx, model)
+    # the node counter and the cached dependency mapper count / collect each
+    # distinct subexpression once *because* the look-aside memoizes every key:
+    # C05's rule instances on CachedMapper.__call__ are part of this property
+    from .c05 import check_lookaside
+    check_lookaside(ctx, model)
 
 
 # ---------------------------------------------------------------------------
